@@ -29,30 +29,30 @@ type C07Param struct {
 }
 
 type C07Case struct {
-	Declared    []string     `json:"declared"`
-	AuthOK      []string     `json:"auth_ok"`
-	HasAuth     bool         `json:"has_auth"`
-	OpSecurity  *[][]string  `json:"op_security"` // nil: operation declares none
-	DocSecurity [][]string   `json:"doc_security"`
-	OpParams    []C07Param   `json:"op_params"`
-	PathParams  []C07Param   `json:"path_params"`
-	HasBody     bool         `json:"has_body"`
-	BodyReq     bool         `json:"body_required"`
-	BodyState   string       `json:"body_state"` // valid | invalid | absent
-	BodyVia     string       `json:"body_via,omitempty"` // "": httptest.NewRequest over a strings.Reader; "multireader": http.NewRequest over a reader of unknown type (ContentLength stays 0)
-	Multi       bool         `json:"multi"`
-	ExclBody    bool         `json:"excl_body"`
-	ExclQuery   bool         `json:"excl_query"`
-	Defaults    bool         `json:"defaults,omitempty"` // default-setting on
+	Declared    []string    `json:"declared"`
+	AuthOK      []string    `json:"auth_ok"`
+	HasAuth     bool        `json:"has_auth"`
+	OpSecurity  *[][]string `json:"op_security"` // nil: operation declares none
+	DocSecurity [][]string  `json:"doc_security"`
+	OpParams    []C07Param  `json:"op_params"`
+	PathParams  []C07Param  `json:"path_params"`
+	HasBody     bool        `json:"has_body"`
+	BodyReq     bool        `json:"body_required"`
+	BodyState   string      `json:"body_state"`         // valid | invalid | absent
+	BodyVia     string      `json:"body_via,omitempty"` // "": httptest.NewRequest over a strings.Reader; "multireader": http.NewRequest over a reader of unknown type (ContentLength stays 0)
+	Multi       bool        `json:"multi"`
+	ExclBody    bool        `json:"excl_body"`
+	ExclQuery   bool        `json:"excl_query"`
+	Defaults    bool        `json:"defaults,omitempty"` // default-setting on
 }
 
 type C07Obs struct {
-	OK      bool       `json:"ok"`
-	Parts   []string   `json:"parts"`
-	Calls   []string   `json:"calls"`
+	OK      bool            `json:"ok"`
+	Parts   []string        `json:"parts"`
+	Calls   []string        `json:"calls"`
 	ParamOK map[string]bool `json:"param_ok"`
-	BodyOK  bool       `json:"body_ok"`
-	Panic   string     `json:"panic,omitempty"`
+	BodyOK  bool            `json:"body_ok"`
+	Panic   string          `json:"panic,omitempty"`
 }
 
 func c07Requirements(rs [][]string) openapi3.SecurityRequirements {
